@@ -20,6 +20,9 @@ import (
 type Hasher struct {
 	RepoPrefix string
 	Opaque     []string
+	// Shallow: below the root's own memory, pointers, slices and maps are hashed by
+	// identity (address, length) only — "was this object itself written?"
+	Shallow    bool
 	seen       map[uintptr]bool
 	h          uint64
 	Nodes      int
@@ -121,6 +124,10 @@ func (hs *Hasher) value(v reflect.Value, depth int) {
 		}
 		p := v.Pointer()
 		et := t.Elem()
+		if hs.Shallow && depth > 1 {
+			hs.mix(uint64(p))
+			return
+		}
 		if hs.foreignStruct(et) || hs.opaqueType(et) {
 			hs.mix(uint64(p)) // identity only
 			return
@@ -144,6 +151,10 @@ func (hs *Hasher) value(v reflect.Value, depth int) {
 			return
 		}
 		hs.mix(uint64(v.Len()))
+		if hs.Shallow && depth > 1 {
+			hs.mix(uint64(v.Pointer()))
+			return
+		}
 		if v.Len() > 0 && t.Elem().Kind() == reflect.Uint8 {
 			hs.str(string(v.Bytes()))
 			return
@@ -161,6 +172,10 @@ func (hs *Hasher) value(v reflect.Value, depth int) {
 			return
 		}
 		hs.mix(uint64(v.Len()))
+		if hs.Shallow && depth > 1 {
+			hs.mix(uint64(v.Pointer()))
+			return
+		}
 		// order-independent combination of (key,value) hashes
 		var acc uint64
 		iter := v.MapRange()
